@@ -1,7 +1,73 @@
 import Rare.Base.Proto
+import Rare.Model.C03
+/-!
+Line-protocol driver for C03 (see `harness/corr/c03.go` and `extra/C03.py`).
+
+  csv <rows>                          the encoding/csv writer model on arbitrary rows, re-read by `parseCsv`
+  agg counter <hist>                  sequential reference CSV of histo
+  agg table <delim> <hist>            … of table / heatmap
+  agg spark <delim> <ncols> <hist>    … of spark with a name-ordered column sort (truncation to ncols)
+  agg subkey <hist>                   … of bars
+  parse <text>                        `parseCsv`
+  exit <readErrors> <aggNil> <parseErrors> <matched>
+
+rows: records joined by `|`, a record = hex fields joined by `;` (`.` = no field), `_` = no record.
+-/
 namespace Rare.Drv.C03
+open Rare Rare.C03 Rare.C07 Rare.Proto
+
+def encRows (rows : List (List Bytes)) : String :=
+  if rows.isEmpty then "_" else "|".intercalate (rows.map hexList)
+
+def decRows (s : String) : Option (List (List Bytes)) :=
+  if s = "_" then some [] else (s.splitOn "|").mapM decHexList
+
+/-- replace CR LF by LF (what Go's `encoding/csv` Reader does to every input line, also inside quotes) -/
+def dropCrLf : Bytes → Bytes
+  | 13 :: 10 :: r => 10 :: dropCrLf r
+  | b :: r => b :: dropCrLf r
+  | [] => []
+
+/-- How Go's `encoding/csv` Reader (FieldsPerRecord = -1) sees a text that `parseCsv` reads as `rows`:
+empty lines are skipped and CR LF inside a quoted field arrives as LF. -/
+def goReaderView (rows : List (List Bytes)) : List (List Bytes) :=
+  (rows.filter fun r => r ≠ [[]]).map fun r => r.map dropCrLf
 
 def handle : List String → String
+  | ["csv", rows] =>
+    match decRows rows with
+    | some rs =>
+      let text := writeCsv rs
+      let back := parseCsv text
+      s!"ok {Hex.enc text} {encRows (goReaderView back)} {if back = rs then 1 else 0}"
+    | none => "bad-args"
+  | ["agg", "counter", h] =>
+    match decHexList h with
+    | some hs => s!"ok {Hex.enc (refCounterCsv hs)}"
+    | none => "bad-args"
+  | ["agg", "table", d, h] =>
+    match Hex.dec d, decHexList h with
+    | some d, some hs => if d.isEmpty then "unmodelled empty-delimiter" else s!"ok {Hex.enc (refTableCsv d hs)}"
+    | _, _ => "bad-args"
+  | ["agg", "spark", d, n, h] =>
+    match Hex.dec d, nat? n, decHexList h with
+    | some d, some n, some hs => if d.isEmpty then "unmodelled empty-delimiter" else s!"ok {Hex.enc (refSparkCsv d n hs)}"
+    | _, _, _ => "bad-args"
+  | ["agg", "subkey", h] =>
+    match decHexList h with
+    | some hs =>
+      match refSubKeyCsv hs with
+      | .ok t => s!"ok {Hex.enc t}"
+      | .error _ => "panic"
+    | none => "bad-args"
+  | ["parse", t] =>
+    match Hex.dec t with
+    | some t => s!"ok {encRows (parseCsv t)}"
+    | none => "bad-args"
+  | ["exit", re, an, pe, m] =>
+    match int? re, nat? an, nat? pe, nat? m with
+    | some re, some an, some pe, some m => s!"ok {determineErrorState re (an != 0) pe m}"
+    | _, _, _, _ => "bad-args"
   | _ => "bad-op"
 
 end Rare.Drv.C03
